@@ -93,6 +93,7 @@ def o1b(W, ob):
         for q in qs:
             ob.check(cfg.path_from_avoiding(q.bb, sends) is None, '%s|queued-then-sent' % short(f.path), 'queued inputs are flushed before returning',
                      '%s can return without flushing the outgoing inputs' % short(f.path), where(f, q.line))
+    queue_is_unconditional(W, ob)
     # the constructor ignores the (all-default) fills: reviewed exception, listed
     n = W.fn(P2P + '::new')
     cs = [t for t in n.calls() if callee_matches(t.callee, SL + '::set_frame_delay')]
@@ -102,6 +103,26 @@ def o1b(W, ob):
               (P2P + '::new', P2P + '::set_input_delay', 'SyncTestSession::new'))]
     for f, t in others:
         ob.fail('set_frame_delay|caller|%s' % short(f.path), 'SyncLayer::set_frame_delay is called from %s, which does not announce its fills' % short(f.path), where(f, t.line))
+
+
+def queue_is_unconditional(W, ob):
+    """"queued" means stored: queue_outgoing_local_input keeps (frame -> handle -> input) whenever the session has remote endpoints -- also
+    before the session is running, when set_input_delay's fills are announced"""
+    q = W.fn(P2P + '::queue_outgoing_local_input')
+    cx, G = W.ctx(q), W.guards(q)
+    ins = [t for t in q.calls() if last_seg(t.callee.best) == 'insert']
+    ent = [t for t in q.calls() if last_seg(t.callee.best) == 'entry']
+    ob.require_count(len(ins), 1, 'insert in queue_outgoing_local_input')
+    for t in ins:
+        eg = G.essential_guard(t.bb)
+        ok = eg == [[('bool', 'HashMap::is_empty(self.player_reg.remotes)', False)]]
+        ob.check(ok, 'queue_outgoing_local_input|only-condition', 'the input is stored whenever there are remote endpoints (no other condition)',
+                 'queue_outgoing_local_input stores the input only under `%s`; announced frames can be lost before they are sent' % dnf_str(eg)[:200], where(q, t.line))
+        a = [key(cx.expr_operand(x)) for x in t.args[1:]]
+        tgt = key(cx.expr_operand(t.args[0]))
+        ek = [key(cx.expr_operand(e.args[1])) for e in ent]
+        ob.check(a == ['arg2', 'arg3'] and ek == ['arg3.frame'] and 'self.outgoing_local_inputs' in tgt, 'queue_outgoing_local_input|what-is-stored',
+                 'stored under the input\'s frame and the player\'s handle, unchanged', 'queue_outgoing_local_input stores %s under %s into %s' % (a, ek, tgt[:80]), where(q, t.line))
 
 
 def fill_counter_inits(W, f):
@@ -214,6 +235,8 @@ def o3(W, ob):
 
 from . import helpers
 
+from . import initial
+
 OBLIGATIONS = [
     ('C11.O1', 'what is announced was inserted', 'set_frame_delay / add_local_input write the input ring; every fill reported by InputQueue::set_frame_delay was '
      'inserted first, with the same frame, replicating the newest input; the filled vector is what is returned.', o1),
@@ -225,4 +248,5 @@ OBLIGATIONS = [
      'dropped and never announced.', o3),
     ('C11.O4', 'announced frames come from the sync layer (= C03.O4)', 'see C03.O4', c03.o4),
     ('C11.H', 'helpers the rules above rely on', 'the bodies of the helpers named by this property\'s rules compute what the rules assume (prev_pos, add_input, next_complete); see rules/helpers.py', helpers.bundle('prev_pos', 'add_input', 'next_complete')),
+    ('C11.I', 'initial state', 'every constructor gives the fields this property\'s rules interpret (NULL_FRAME = none / nothing yet, 0 = first frame, latches open, typestate start) the value listed in tables/initial_state.json; every field compared with NULL_FRAME anywhere is listed; see rules/initial.py', initial.rule_for('C11')),
 ]
